@@ -126,7 +126,7 @@ SUTS = ["tri", "strings", "containers", "account", "colors", "queue_", "printer"
 
 
 def floors(tier):
-    k = 1 if tier == "quick" else 6
+    k = 1 if tier == "quick" else 5
     return {"evals": 3000 * k, "distinct": 30 * k,
             "classes": {"report": 30 * k, "report:BRANCH+LINE": 24 * k, "report:BRANCH": 2 * k, "report:LINE": 2 * k,
                         "xml-parsed": 30 * k, "html-parsed": 30 * k, "line-annotation": 1500 * k, "branch-line": 200 * k,
@@ -158,8 +158,10 @@ def plan(tier, seed):
     runs = directed_runs()
     rng = random.Random(seed * 15485863 + 35)
     for _ in range(9 if quick else 220):
+        r = 0.0 if quick else rng.random()
+        metrics = ["BRANCH", "LINE"] if r < 0.86 else (["BRANCH"] if r < 0.93 else ["LINE"])
         runs.append({"sut": rng.choice(SUTS), "algorithm": rng.choice(["MOSA", "WHOLE_SUITE", "MIO", "RANDOM"]), "seed": rng.randrange(1, 10**6),
-                     "iterations": rng.choice([2, 3, 5, 8]), "metrics": ["BRANCH", "LINE"], "strategy": rng.choice(["CASE", "SUITE", "COMBINED", "NONE"]),
+                     "iterations": rng.choice([2, 3, 5, 8]), "metrics": metrics, "strategy": rng.choice(["CASE", "SUITE", "COMBINED", "NONE"]),
                      "assertion_generation": rng.choice(["NONE", "SIMPLE"])})
     per = 3 if quick else 8
     return [{"name": "real", "runs": runs[i:i + per]} for i in range(0, len(runs), per)]
